@@ -139,7 +139,7 @@ def signature(case, r):
         if o['load'] != 'ok' or o.get('nrules') != 1:
             # the suggested text is not accepted by the loader (or is not exactly one rule)
             if o['load'] == 'parse-error' and '\x00' in r['rule'] and \
-                    loads_and_matches(r['rule'].replace('\x00', ''), d.replace('\x00', '')):
+                    loads(r['rule'].replace('\x00', '')):
                 return 'C19/nul-byte-in-suggested-rule-does-not-load'      # the NUL byte is the only obstacle
             return 'C19/suggested-rule-does-not-load'
         if o['matched'] is not True:
@@ -155,9 +155,9 @@ def signature(case, r):
     return worst
 
 
-def loads_and_matches(text, d):
-    o = run_impl(IMPL, {'mode': 'texts', 'texts': [{'text': text, 'd': d}]})['results'][0]
-    return o['load'] == 'ok' and o.get('nrules') == 1 and o['matched'] is True
+def loads(text):
+    o = run_impl(IMPL, {'mode': 'texts', 'texts': [{'text': text, 'd': ''}]})['results'][0]
+    return o['load'] == 'ok' and o.get('nrules') == 1
 
 
 def run_cases_impl(cases):
